@@ -14,4 +14,4 @@ for sid in ids:
     m["caught_by"] = sorted(k for k in det if not k.startswith("<"))
     (p / "meta.json").write_text(json.dumps(m, indent=1))
     own = m["breaks_property"]
-    print(sid, own, "->", m["caught_by"], "OWN" if own in m["caught_by"] else "**MISSED**", [v[0][:100] for k, v in det.items() if k == own])
+    print(sid, own, "->", m["caught_by"], "OWN" if own in m["caught_by"] else "**MISSED**", [v[0][:100] for k, v in det.items() if k == own or k.startswith("<")])
